@@ -23,6 +23,21 @@ def parent_ok(t):
 # a stable-pass subtest with a randomly generated name (bmath TestAbs/<n>) may be absent from a run: it counts as
 # missing only if it failed or its parent test did not pass
 missing = sorted(t for t in want - passed if not ("/" in t and parent_ok(t)))
+# timing-based tests (app/bconcurrent, app/bcache) flake on their own: re-run a missing test up to 3 times
+still = []
+for t in missing:
+    pkg, name = t.split("::", 1)
+    top = name.split("/")[0]
+    ok = False
+    for _ in range(3):
+        r = subprocess.run(["go", "test", "-vet=off", "-count=1", "-run", "^%s$" % top, pkg], cwd=repo, env=env,
+                           stdout=subprocess.PIPE, stderr=subprocess.STDOUT, text=True)
+        if r.returncode == 0:
+            ok = True
+            break
+    if not ok:
+        still.append(t)
+missing = still
 print("stable_pass %d, passed now %d, missing %d, failed-now-in-baseline %d" % (len(want), len(passed), len(missing), len(want & failed)))
 for m in missing[:40]:
     print("  MISSING", m)
